@@ -187,3 +187,119 @@ Proof.
   - reflexivity.
   - cbn [app]. replace (b =? 32) with false by lia. replace (c =? 32) with false by lia. reflexivity.
 Qed.
+
+(* ---- the text the classes look at, in terms of what parse_scheme leaves ---- *)
+Lemma k17_drop_same' l : k17_drop k17_c0sp l = Parser.drop_while Parser.is_c0_or_space l.
+Proof. induction l as [|c r IH]; [reflexivity|]. cbn [k17_drop Parser.drop_while]. rewrite IH. reflexivity. Qed.
+
+Lemma k17_trimmed_same s : k17_trimmed s = input_new_trim_c0 s.
+Proof. unfold k17_trimmed, input_new_trim_c0, Parser.trim_matches. rewrite !k17_drop_same'. reflexivity. Qed.
+
+Lemma k17_cleaned_same s : k17_cleaned s = filter nt (input_new_trim_c0 s).
+Proof. unfold k17_cleaned. fold (k17_trimmed s). rewrite k17_trimmed_same. reflexivity. Qed.
+
+Lemma scan_cp : forall l acc letters rem,
+  parse_scheme_loop CUrlParser acc l = Some (rev acc ++ letters, rem) ->
+  exists raw, filter nt l = raw ++ 58 :: strip_tnl rem /\ length raw = length letters
+              /\ k17_skip (S (length letters)) l = rem.
+Proof.
+  induction l as [|c r IH]; intros acc letters rem H; cbn [parse_scheme_loop] in H.
+  - cbn [ctx_eqb] in H. discriminate.
+  - cbn [filter]. unfold C02_Enc.not_tnl at 1. cbn [k17_skip]. change (k17_tnl c) with (is_tnl c).
+    destruct (is_tnl c) eqn:Et; cbn [negb]; [exact (IH _ _ _ H)|].
+    destruct (is_lower c || is_digit c || (c =? 43) || (c =? 45) || (c =? 46)) eqn:E1.
+    { destruct (parse_scheme_loop_out _ _ _ _ H) as (s' & Hs & _). cbn [rev] in Hs.
+      rewrite <- app_assoc in Hs. apply app_inv_head in Hs. cbn [app] in Hs. subst letters.
+      destruct (IH (c :: acc) s' rem) as (raw & F1 & F2 & F3); [cbn [rev]; rewrite <- app_assoc; exact H|].
+      exists (c :: raw). cbn [app length]. rewrite F1, F2. split; [reflexivity|]. split; [reflexivity|exact F3]. }
+    destruct (is_upper c) eqn:E2.
+    { destruct (parse_scheme_loop_out _ _ _ _ H) as (s' & Hs & _). cbn [rev] in Hs.
+      rewrite <- app_assoc in Hs. apply app_inv_head in Hs. cbn [app] in Hs. subst letters.
+      destruct (IH ((c + 32) :: acc) s' rem) as (raw & F1 & F2 & F3); [cbn [rev]; rewrite <- app_assoc; exact H|].
+      exists (c :: raw). cbn [app length]. rewrite F1, F2. split; [reflexivity|]. split; [reflexivity|exact F3]. }
+    destruct (c =? 58) eqn:E3; [|discriminate]. apply N.eqb_eq in E3. subst c.
+    injection H as Hl Hr. subst rem.
+    assert (letters = []) as ->.
+    { apply (f_equal (@length N)) in Hl. rewrite app_length in Hl. destruct letters; [reflexivity|cbn [length] in Hl; lia]. }
+    exists []. cbn [app length k17_skip]. split; [reflexivity|]. split; [reflexivity|]. destruct r; reflexivity.
+Qed.
+
+Lemma scheme_text s rem : parse_scheme CUrlParser (input_new_trim_c0 s) = Some (s_data, rem) ->
+  skipn 5 (k17_cleaned s) = strip_tnl rem /\ k17_skip 5 (k17_trimmed s) = rem.
+Proof.
+  intros Hp. unfold parse_scheme in Hp.
+  destruct (inp_starts_with_pred is_alpha (input_new_trim_c0 s)); [|discriminate].
+  destruct (scan_cp _ [] s_data rem Hp) as (raw & F1 & F2 & F3).
+  rewrite k17_cleaned_same. change (k17_trimmed s) with (input_new_trim_c0 s). rewrite F1. split; [|exact F3].
+  do 5 (destruct raw as [|? raw]; try discriminate F2). reflexivity.
+Qed.
+
+(* the first code point the parser sees *)
+Lemma strip_tnl_next rem : inp_next rem = match strip_tnl rem with [] => None | c :: _ => match inp_next rem with Some (_, r) => Some (c, r) | None => None end end.
+Proof.
+  unfold inp_next, strip_tnl. induction rem as [|c r IH]; [reflexivity|]. cbn [Parser.drop_while filter].
+  unfold C02_Enc.not_tnl at 1 3. destruct (is_tnl c); cbn [negb]; [exact IH|reflexivity].
+Qed.
+
+Lemma k17_header_split Hc Rc : ~ In 44 Hc -> ~ In 35 Hc -> k17_header (strip_tnl (Hc ++ 44 :: Rc)) = strip_tnl Hc.
+Proof.
+  induction Hc as [|c r IH]; intros H1 H2.
+  - cbn [app]. unfold strip_tnl. cbn [filter]. change (nt 44) with true. cbv iota. reflexivity.
+  - cbn [app]. unfold strip_tnl. cbn [filter]. destruct (nt c); [|apply IH; intros Hin; [apply H1|apply H2]; right; exact Hin].
+    cbn [k17_header].
+    destruct (c =? 44) eqn:E1; [apply N.eqb_eq in E1; exfalso; apply H1; left; exact E1|].
+    destruct (c =? 35) eqn:E2; [apply N.eqb_eq in E2; exfalso; apply H2; left; exact E2|].
+    cbn [orb]. f_equal. apply IH; intros Hin; [apply H1|apply H2]; right; exact Hin.
+Qed.
+
+Lemma k17_body_split Hc Rc : ~ In 44 Hc -> ~ In 35 Hc -> k17_body (Hc ++ 44 :: Rc) = Some Rc.
+Proof.
+  induction Hc as [|c r IH]; intros H1 H2; [reflexivity|]. cbn [app k17_body].
+  destruct (c =? 44) eqn:E1; [apply N.eqb_eq in E1; exfalso; apply H1; left; exact E1|].
+  destruct (c =? 35) eqn:E2; [apply N.eqb_eq in E2; exfalso; apply H2; left; exact E2|].
+  apply IH; intros Hin; [apply H1|apply H2]; right; exact Hin.
+Qed.
+
+(* ---- C17 outside Known_C17, for every string the parser reads the scheme "data" from ---- *)
+Theorem outside_known_is_fetch dbg hp ho hd s rem u : usv_list s ->
+  parse_scheme CUrlParser (input_new_trim_c0 s) = Some (s_data, rem) ->
+  parse_url dbg hp ho hd None None s = POk u ->
+  ~ Known_C17 s ->
+  fetch_view (process_and_decode s) = fetch_of_url u.
+Proof.
+  intros Hs Hp Hu Hk.
+  assert (Hk0 : known_c17 s = 0).
+  { unfold Known_C17 in Hk. destruct (N.eq_dec (known_c17 s) 0) as [E|E]; [exact E|contradiction]. }
+  destruct (scheme_text s rem Hp) as [T1 T2]. unfold known_c17 in Hk0. rewrite T1, T2 in Hk0.
+  (* rem is made of scalar values *)
+  assert (Hur : usv_list rem).
+  { destruct (parse_scheme_suffix _ _ _ _ Hp) as [pre Hpre].
+    assert (usv_list (input_new_trim_c0 s)) as Ht.
+    { unfold input_new_trim_c0, Parser.trim_matches. apply usv_rev.
+      destruct (drop_while_spec Parser.is_c0_or_space (rev (Parser.drop_while Parser.is_c0_or_space s))) as (a & Ha & _).
+      destruct (drop_while_spec Parser.is_c0_or_space s) as (a0 & Ha0 & _).
+      rewrite Ha0 in Hs. apply usv_app in Hs. destruct Hs as [_ Hs].
+      apply usv_rev in Hs. rewrite Ha in Hs. apply usv_app in Hs. tauto. }
+    rewrite Hpre in Ht. apply usv_app in Ht. tauto. }
+  (* K1: not '/' *)
+  assert (H47 : inp_split_prefix_char 47 rem = None).
+  { unfold inp_split_prefix_char. rewrite strip_tnl_next. destruct (strip_tnl rem) as [|c r]; [reflexivity|].
+    destruct (c =? 47) eqn:E; [discriminate Hk0|]. destruct (inp_next rem) as [[d r']|]; [rewrite E|]; reflexivity. }
+  apply (opaque_is_fetch dbg hp ho hd s rem u Hs Hp H47 Hu).
+  intros h B HB.
+  destruct (find_comma_spec _ _ _ HB) as (Hsplit & Hn44 & Hn35).
+  destruct (comma_split_chars rem h B Hur Hsplit Hn44) as (Hc & Rc & Er & Eh & EB & Hnc).
+  assert (Huc : usv_list Hc /\ usv_list Rc).
+  { rewrite Er in Hur. apply usv_app in Hur. destruct Hur as [U1 U2]. apply usv_cons in U2. tauto. }
+  destruct Huc as [Uh Ur].
+  assert (Hc35 : ~ In 35 Hc) by (intros Hin; apply Hn35; rewrite Eh; apply in_utf8_ascii; [lia|exact Hin]).
+  rewrite Eh, EB, filter_not_tnl_utf8, query_space_utf8, split_escape_utf8 by (try apply usv_strip; assumption).
+  rewrite Er in Hk0. rewrite (k17_header_split Hc Rc Hnc Hc35), (k17_body_split Hc Rc Hnc Hc35) in Hk0.
+  destruct (strip_tnl (Hc ++ 44 :: Rc)) as [|c r] eqn:Est.
+  - exfalso. assert (Hin : In 44 (strip_tnl (Hc ++ 44 :: Rc))).
+    { unfold strip_tnl. apply filter_In. split; [apply in_or_app; right; left; reflexivity|reflexivity]. }
+    rewrite Est in Hin. exact Hin.
+  - destruct (c =? 47); [discriminate Hk0|].
+    destruct (k17_query_space (strip_tnl Hc)); [discriminate Hk0|].
+    destruct (k17_split_escape Rc); [discriminate Hk0|]. split; reflexivity.
+Qed.
